@@ -230,6 +230,14 @@ def run_ob(ob, gen_dir, work, meta):
     if rc != 0:
         res['reason'] = 'goto-cc failed: ' + (se or so)[-1500:]
         return res
+    # ghost globals and the repository's globals start with arbitrary values (contracts must state what they need);
+    # const tables keep their initialisers
+    a0 = os.path.join(d, 'a0.gb')
+    os.rename(a, a0)
+    rc, so, se, _ = run(['goto-instrument', '--nondet-static', a0, a], 120)
+    if rc != 0:
+        res['reason'] = 'nondet-static failed: ' + (se or so)[-500:]
+        return res
     # loops: unwind those without a loop contract
     rc, so, se, _ = run(['goto-instrument', '--show-loops', '--json-ui', a], 120)
     loops = []
@@ -254,8 +262,12 @@ def run_ob(ob, gen_dir, work, meta):
             ctext[path] = scan_loops(open(path).read())
         has = ctext[path].get(int(loc.get('line', 0)))
         if has is None:
-            res['reason'] = 'loop %s at %s:%s not found by the loop scanner' % (lp['name'], fn, loc.get('line'))
-            return res
+            # a loop that comes from a macro of the ghost/spec headers has no loop keyword on its line: it carries no contract
+            srcline = open(path).read().split('\n')[int(loc.get('line', 1)) - 1]
+            if re.search(r'\b(for|while|do)\b', srcline):
+                res['reason'] = 'loop %s at %s:%s not found by the loop scanner' % (lp['name'], fn, loc.get('line'))
+                return res
+            has = False
         if has:
             contract_loops.append(lp['name'])
         else:
